@@ -1,1 +1,107 @@
-From JV Require Import Lib.Base Model.C14ClassSpec.
+(* C14 — property theorems only. Each is closed by `exact` of a lemma proved in Proofs/C14Proofs.v
+   (or by vm_compute for closed witnesses). *)
+From JV Require Import Lib.Base Model.C14ClassSpec Spec.C14Spec Model.C14Guard Proofs.C14Proofs.
+
+(* (S1) Whatever a parse accepts is valid for the declared type: for EVERY well-formed class family, declared
+   type, argument default and sequence of argv items (any notation), the accepted value names — by its
+   class_path — a class that is a subclass of the declared type (or a function returning one), every init_args
+   key is a parameter of that very callable with a value of the parameter's type (recursively for class-typed
+   parameters), and every required parameter is present.  Holds for the code as it is (rs = restr) and for the
+   repaired NestedArg rendering (rs = identity). *)
+Theorem C14_accepted_is_subclass_and_valid :
+  forall (F : family) (rs : raw -> raw) (base : str) (dflt : option value) (steps : list input) (v : value),
+    fam_wf F = true ->
+    parse_with F rs base dflt steps = Ok v ->
+    valid F base v = true.
+Proof. exact parse_with_valid. Qed.
+Print Assumptions C14_accepted_is_subclass_and_valid.
+
+Example C14_accepted_nonvacuous :
+  fam_wf x_fam = true /\
+  exists ia, parse x_fam x_Top None x_steps_ok = Ok (VSpec (path_of x_fam x_Top) ia []).
+Proof. split; [vm_compute; reflexivity | eexists; vm_compute; reflexivity]. Qed.
+Print Assumptions C14_accepted_nonvacuous.
+
+(* (S2) instantiate_classes builds exactly the configured object: whenever the instantiation of ANY configuration
+   value succeeds, the constructor log has one call per spec node, every call only receives objects built
+   before it (children first), and the object handed back, read off the log, is the one the configuration
+   denotes (Spec.denote): an instance of exactly the class named by class_path, called with exactly
+   init_args updated by dict_kwargs, nested class arguments passed as the objects they denote. *)
+Theorem C14_instantiate_exact :
+  forall (F : family) (n : nat) (v : value) (a : arg) (log : list entry),
+    inst F n v [] = Ok (a, log) ->
+    length log = nodes v /\ backward 0 log = true /\ arg_tree (trees log) a = denote F v.
+Proof. exact inst_exact. Qed.
+Print Assumptions C14_instantiate_exact.
+
+(* (S1)+(S2) no TypeError on an accepted spec: if a parse accepts v, no class in v is abstract and every
+   dict_kwargs key goes to a callable with a var-keyword parameter (dict_kwargs are documented as not validated),
+   then instantiation succeeds and builds exactly the configured object. *)
+Theorem C14_accepted_builds_configured_object :
+  forall (F : family) (rs : raw -> raw) (base : str) (dflt : option value) (steps : list input) (v : value) (n : nat),
+    fam_wf F = true ->
+    parse_with F rs base dflt steps = Ok v ->
+    instantiable F v = true -> dk_accepted F v = true -> depth v < n ->
+    exists a log, inst F n v [] = Ok (a, log) /\
+                  length log = nodes v /\ backward 0 log = true /\ arg_tree (trees log) a = denote F v.
+Proof. exact accepted_builds. Qed.
+Print Assumptions C14_accepted_builds_configured_object.
+
+Example C14_accepted_builds_nonvacuous :
+  exists v, parse x_fam x_Top None x_steps_ok = Ok v /\
+            instantiable x_fam v = true /\ dk_accepted x_fam v = true /\ Nat.ltb (depth v) FUEL = true /\ nodes v = 2.
+Proof. eexists. vm_compute. repeat split; try reflexivity. Qed.
+Print Assumptions C14_accepted_builds_nonvacuous.
+
+(* (S3) is violated by the code as it is: `--x.mid=Mid --x.mid.leaf=null` (a dotted sub-option two levels
+   below the argument carrying null) is rejected, its explicit form is accepted; finding class 1. *)
+Theorem C14_dotted_null_refuted :
+  exists (F : family) (base : str) (steps : list input),
+    fam_wf F = true /\ guard_class F base None steps = 1%N /\
+    run F base None steps = ORej /\
+    exists v io, run F base None (expand_steps F base None steps) = OAcc v io.
+Proof.
+  exists x_fam, x_Top, x_steps_null. vm_compute. repeat split; try reflexivity. eexists; eexists; reflexivity.
+Qed.
+Print Assumptions C14_dotted_null_refuted.
+
+(* with the NestedArg value handed down unchanged (fixes/C14-nested-null-restringified.patch) the same input
+   behaves like its explicit form *)
+Example C14_dotted_null_fixed :
+  obs_eqb (run_fixed x_fam x_Top None x_steps_null)
+          (run_fixed x_fam x_Top None (expand_steps x_fam x_Top None x_steps_null)) = true.
+Proof. vm_compute. reflexivity. Qed.
+Print Assumptions C14_dotted_null_fixed.
+
+(* (S3), partial: short forms, for ALL families / states / modes.  One argv item in short notation and its explicit
+   form are adapted to the same result, whatever value the argument currently holds:
+     --x=Name                      ~  --x={"class_path": "<resolved path>"}
+     --x={"class_path": "Name",..} ~  the same dict with the resolved path
+     --x={"init_args": ..}         ~  --x={"class_path": "<current class>", "init_args": ..}
+     --x={"k": v}                  ~  --x={"class_path": "<current class>", "init_args": {"k": v}}
+     --x.k=v, --x.init_args.k=v    ~  --x={"k": v}
+   and therefore a whole argv in which every such item is replaced by its explicit form (explicit_argv; "current
+   class" = the class_path the argument holds when the item is parsed) gives the same run: same accept/reject, same
+   normalised spec, same constructor log.  Dotted keys two or more levels deep are NOT covered (left as they are by
+   explicit_argv); they are only compared per case by the correspondence run (and are where the finding lives). *)
+Theorem C14_short_forms_same_run :
+  forall (F : family) (rs : raw -> raw) (base : str) (dflt : option value) (steps : list input),
+    run_with F rs base dflt (explicit_argv F rs base dflt steps) = run_with F rs base dflt steps.
+Proof. exact run_explicit. Qed.
+Print Assumptions C14_short_forms_same_run.
+
+Theorem C14_short_form_one_item :
+  forall (F : family) (rs : raw -> raw) (n : nat) (m : mode) (base : str) (cfg : option value) (i : input),
+    adapt F rs n m base cfg (norm_step (explicit1 F base cfg i)) = adapt F rs n m base cfg (norm_step i).
+Proof. exact explicit1_same. Qed.
+Print Assumptions C14_short_form_one_item.
+
+(* the rewriting is not the identity: name-only, one-level dotted and bare-dict items become explicit dicts *)
+Example C14_short_forms_nonvacuous :
+  explicit_argv x_fam restr x_Top None
+    [IRaw (RStr x_Top); INested [x_mid] (RStr x_Mid); IRaw (RDict [(x_mid, RNull)])]
+  = [IRaw (RDict [(s_class_path, RStr (path_of x_fam x_Top))]);
+     IRaw (RDict [(s_class_path, RStr (path_of x_fam x_Top)); (s_init_args, RDict [(x_mid, RStr x_Mid)])]);
+     IRaw (RDict [(s_class_path, RStr (path_of x_fam x_Top)); (s_init_args, RDict [(x_mid, RNull)])])].
+Proof. vm_compute. reflexivity. Qed.
+Print Assumptions C14_short_forms_nonvacuous.
